@@ -220,7 +220,7 @@ def c04_covers(run):
     return acc.result()
 
 
-C04_VALUES = [{"id": 1, "price": 2}, {"id": 1, "price": 2.5, "class": "k"}, {"price": 3}, {"price": 3, "other": {"z": 1}},
+C04_VALUES = [{"class": "k", "a-b": 1}, {"class": "k"}, {"a-b": 2}, {"id": 1, "price": 2}, {"id": 1, "price": 2.5, "class": "k"}, {"price": 3}, {"price": 3, "other": {"z": 1}},
               [{"x": 1}, {"y": 2}, 3], [{"x": 1}], [{"x": 1, "label": "l"}, "s"], [1, "a"], [1, 2, "a"], [1], [1, 2], [1, 2, 3], [1.5, 2, "x"],
               {"n": 1}, {"inner": {"n": 1}, "many": [{"n": 2}]}, {"o": {"a": "s", "b": 4}}]
 
@@ -251,6 +251,16 @@ def c04_extra():
 
     def not_nums():
         return Not(Array(Number(), maxItems=1))
+    def renamed_under_pattern():
+        # a renamed property whose JSON name also matches a patternProperties regex
+        class RP(Object, patternProperties={"^cl": String(), "^a-": Element()}):
+            class_ = Property(String(), source="class")
+            a_b = Property(Number(), source="a-b")
+        return RP
+
+    def renamed_under_pattern_untyped():
+        return Element(properties={"class_": Property(String(), source="class"), "a_b": Property(Number(), source="a-b")}, patternProperties={"^cl": String(), "b$": Element()})
+
     def empty_tuple_models():
         class Tag(Object):
             weight = Property(Number())
@@ -260,7 +270,7 @@ def c04_extra():
     for j, mk in enumerate([derived_after_base, point_or_any, nums_or_any, not_nums,
                             lambda: OneOf(Array(Number(), minItems=3), Array(Element(), maxItems=2)),
                             lambda: Array([], additionalItems=Number()), lambda: Element(items=[], additionalItems=Number()), empty_tuple_models,
-                            lambda: Element(items=[], additionalItems=Array(Number()))]):
+                            lambda: Element(items=[], additionalItems=Array(Number())), renamed_under_pattern, renamed_under_pattern_untyped]):
         out.append((1000 + j, mk, mk()))
     return out
 
@@ -281,6 +291,13 @@ def c13_scenarios():
     s("Element.required appended", lambda: Element(required=["a"]), [lambda e: e.required.append("b")], lambda: Element(required=["a", "b"]))
     s("properties reassigned", lambda: Element(properties={"a": Property(String())}),
       [lambda e: setattr(e, "properties", {"a": Property(Integer())})], lambda: Element(properties={"a": Property(Integer())}))
+    s("properties reassigned, an old name omitted", lambda: Element(properties={"count": Property(Integer(), required=True), "label": Property(String())}, additionalProperties=False),
+      [lambda e: setattr(e, "properties", {"label": Property(String())})], lambda: Element(properties={"label": Property(String())}, additionalProperties=False))
+    s("properties reassigned twice", lambda: Element(properties={"a": Property(String(), required=True)}),
+      [lambda e: setattr(e, "properties", {"b": Property(Integer(), required=True)}), lambda e: setattr(e, "properties", {"c": Property(String())})],
+      lambda: Element(properties={"c": Property(String())}))
+    s("properties reassigned to nothing", lambda: Element(properties={"a": Property(String(), required=True)}, additionalProperties=False),
+      [lambda e: setattr(e, "properties", {})], lambda: Element(properties={}, additionalProperties=False))
     s("property added by item assignment", lambda: Element(properties={"a": Property(String())}),
       [lambda e: e.properties.__setitem__("b", Property(Integer(), required=True))],
       lambda: Element(properties={"a": Property(String()), "b": Property(Integer(), required=True)}))
@@ -321,6 +338,17 @@ def c13_scenarios():
         class M(Object, minProperties=2):
             a = Property(String())
         return M
+    def cls_label():
+        class M(Object, additionalProperties=False):
+            label = Property(String())
+        return M
+
+    def cls_count_label():
+        class M(Object, additionalProperties=False):
+            count = Property(Integer(), required=True)
+            label = Property(String())
+        return M
+    s("class properties reassigned, an old name omitted", cls_count_label, [lambda c: setattr(c, "properties", {"label": Property(String())})], cls_label)
     s("class additionalProperties assigned", cls0, [lambda c: setattr(c, "additionalProperties", False)], cls_closed)
     s("class property added", cls0, [lambda c: c.properties.__setitem__("b", Property(Integer(), required=True))], cls_ab)
     s("class minProperties assigned", cls0, [lambda c: setattr(c, "minProperties", 2)], cls_min)
@@ -332,7 +360,7 @@ def c13_reconfig(run):
               "class attribute assignment) x {no call, one call, two calls} before the step x value pool; compared with a freshly built twin")
     w = quiet()
     try:
-        vals = gen.values_for(None) + [{"a": "s", "b": 1}, {"b": 1}, {"a": "s", "b": "x"}, {"ab": "x"}, {"ab": "xyz"}, ["x1"], ["abc"], 0, 3, 10]
+        vals = gen.values_for(None) + [{"label": "x"}, {"count": 1, "label": "x"}, {"count": "bad", "label": "x"}, {"c": "s"}, {"b": 1, "c": "s"}, {"a": "s", "b": 1}, {"b": 1}, {"a": "s", "b": "x"}, {"ab": "x"}, {"ab": "xyz"}, ["x1"], ["abc"], 0, 3, 10]
         for name, init, steps, final in c13_scenarios():
             for warm in (0, 1, 2):
                 e = init()
@@ -508,10 +536,63 @@ def c15_families():
             a = Property(String())
         return [Par, Ch]
     F.append(("override-keywords", fam_override_kw, flat_override_kw))
+
+    # overrides with *falsy* values (an empty required list lifts the parent's requirement, 0 / {} / [] are values too)
+    def fam_falsy():
+        class Par(Object, required=["name"], minProperties=1, default={"name": "d"}, dependencies={"a": ["name"]}, patternProperties={"^n": String()}):
+            name = Property(String())
+
+        class Ch(Par, required=[], minProperties=0, default={}, dependencies={}, patternProperties={}):
+            nick = Property(String())
+
+        class Gr(Ch):
+            age = Property(Integer())
+        return [Par, Ch, Gr]
+
+    def flat_falsy():
+        class Par(Object, required=["name"], minProperties=1, default={"name": "d"}, dependencies={"a": ["name"]}, patternProperties={"^n": String()}):
+            name = Property(String())
+
+        class Ch(Object, required=[], minProperties=0, default={}, dependencies={}, patternProperties={}):
+            name = Property(String())
+            nick = Property(String())
+
+        class Gr(Object, required=[], minProperties=0, default={}, dependencies={}, patternProperties={}):
+            name = Property(String())
+            nick = Property(String())
+            age = Property(Integer())
+        return [Par, Ch, Gr]
+    F.append(("falsy-overrides", fam_falsy, flat_falsy))
+
+    # every class keyword inherited untouched through two levels
+    def fam_inherit_all():
+        class Par(Object, required=["k"], minProperties=1, maxProperties=3, propertyNames=Element(maxLength=4), enum=[{"k": 1}, {"k": 2, "a": "s"}],
+                  dependencies={"a": ["k"]}, patternProperties={"^z": Integer()}, additionalProperties=False):
+            k = Property(Integer())
+            a = Property(String())
+
+        class Ch(Par):
+            pass
+
+        class Gr(Ch):
+            pass
+        return [Par, Ch, Gr]
+
+    def flat_inherit_all():
+        def mk(name):
+            class K(Object, required=["k"], minProperties=1, maxProperties=3, propertyNames=Element(maxLength=4), enum=[{"k": 1}, {"k": 2, "a": "s"}],
+                    dependencies={"a": ["k"]}, patternProperties={"^z": Integer()}, additionalProperties=False):
+                k = Property(Integer())
+                a = Property(String())
+            K.__name__ = K.__qualname__ = name
+            return K
+        return [mk("Par"), mk("Ch"), mk("Gr")]
+    F.append(("inherit-all", fam_inherit_all, flat_inherit_all))
     return F
 
 
-C15_VALUES = [{}, {"a": "s"}, {"a": "s", "x": 1}, {"a": "s", "x": 1, "b": 2}, {"a": "s", "x": 1, "b": "no"}, {"x": 1, "b": 2},
+C15_VALUES = [{"name": "n"}, {"nick": "y"}, {"age": 3}, {"name": 1}, {"a": 1, "name": "n"}, {"k": 1}, {"k": 2, "a": "s"}, {"k": 3}, {"a": "s"}, {"k": 1, "z1": 1},
+              {"k": 1, "long_name": 1}, {}, {"a": "s"}, {"a": "s", "x": 1}, {"a": "s", "x": 1, "b": 2}, {"a": "s", "x": 1, "b": "no"}, {"x": 1, "b": 2},
               {"a": "s", "x": 1, "b": 2, "c": 3}, {"a": 1}, {"b": 2}, {"b": 2.5}, {"p1": 1}, {"p1": "s"}, {"class": "k"}, {"class_": "k"},
               {"q": 1}, {"v": "s"}, {"vee": 1}, {"vee": "s"}, {"v": 1}, {"w": 1}, {"w": 1, "vee": 2}, {"w": 1, "v": "s"}, {"vee": 1, "z": "s"},
               {"vee": 1, "long": 1}, {"a": "d"}, {"a": "e"}, {"a": "d", "n": 1}, {"a": "e", "n": "s"}, 1, "s", None, []]
